@@ -156,6 +156,9 @@ var userDirectives = []string{
 	"// gomacro:QUERY DropOrphans DELETE FROM Membership WHERE IdUser = 0",
 	// the select key directive is matched case-insensitively
 	"// gomacro:SQL _select key(Name)",
+	// `field = $name$` is matched with any run of blanks (none, several, tabs) around the sign
+	"// gomacro:QUERY SquashUser UPDATE User SET Name=$name$ WHERE Role  =  $role$",
+	"// gomacro:QUERY TabUser UPDATE User SET Name =\t$n$ WHERE Role\t= $r$ AND Id=$id$",
 }
 
 var linkDirectives = []string{
@@ -171,6 +174,7 @@ var linkDirectives = []string{
 	// two REFERENCES clauses in one statement, the second one naming a table declared elsewhere
 	"// gomacro:SQL ADD FOREIGN KEY (IdTeam) REFERENCES Team, ADD FOREIGN KEY (IdUser) REFERENCES PersonArchive",
 	"// gomacro:SQL _Select Key(IdTeam, IdUser)",
+	"// gomacro:QUERY ShiftMembers UPDATE Membership SET IdTeam=$to$ WHERE IdUser   =   $who$",
 }
 
 // Tables is the F-tables family.
